@@ -70,6 +70,8 @@ def limit_programs():
     catch = lambda e: [S("handler-bind"), [[S("condition"), [S("lambda"), [S("c"), S("&rest"), S("r")], [S("probe"), Q(S("caught")), S("c")], Q(S("recovered"))]]], e]
     defs = [[S("defun"), S("r"), [S("n")], [S("probe"), Q(S("r")), S("n")], [S("if"), [S("<="), S("n"), 0], 0, [S("+"), 1, [S("r"), [S("-"), S("n"), 1]]]]],
             [S("defun"), S("lp"), [S("n")], [S("if"), [S("<="), S("n"), 0], [S("probe"), Q(S("done"))], [S("lp"), [S("-"), S("n"), 1]]]],
+            [S("defun"), S("drain"), [S("a"), S("b"), S("c")], [S("probe"), Q(S("drain")), S("a")], [S("if"), S("a"), [S("drain"), S("b"), S("c"), []], 7]],
+            [S("defun"), S("dive"), [S("d")], [S("if"), [S("="), S("d"), 0], [S("drain"), 1, 1, []], [S("+"), 0, [S("dive"), [S("-"), S("d"), 1]]]]],
             [S("defmacro"), S("cnt"), [S("n")], [S("if"), [S("<="), S("n"), 0], 7, [S("quasiquote"), [S("cnt"), [S("unquote"), [S("-"), S("n"), 1]]]]]],
             # an expansion chain that alternates between two macros (and one that never ends): the bound counts expansions, not names
             [S("defmacro"), S("ping"), [S("n")], [S("if"), [S("<="), S("n"), 0], 8, [S("quasiquote"), [S("pong"), [S("unquote"), [S("-"), S("n"), 1]]]]]],
@@ -93,11 +95,14 @@ def limit_programs():
     for n in (1, 2, 3, 5):
         build = [[S("set"), Q(S("x")), [S("list"), S("+"), 0, [S("list"), 1, 2]]]] + [[S("set"), Q(S("x")), [S("list"), S("apply"), S("foldl"), [S("list"), S("x")]]]] * n + [0]
         out.append(("builtin-chain%d" % n, [defs, build, [[S("probe"), Q(S("v")), catch([S("apply"), S("foldl"), S("x")])]], [[S("probe"), Q(S("again")), [S("apply"), S("foldl"), S("x")]]]]))
+    # tail calls whose arguments are symbols and constants: the tail call itself is the deepest push of the loop
+    for d in (0, 1, 2, 3):
+        out.append(("tail-drain%d" % d, [defs, [[S("probe"), Q(S("v")), catch([S("dive"), d])]], [[S("probe"), Q(S("again")), [S("drain"), 1, [], []]]]]))
     out.append(("macro-forever", [defs, [[S("probe"), Q(S("v")), catch([S("ping-forever")])]], [[S("probe"), Q(S("again")), [S("cnt"), 1]]]]))
     return out
 
 
-LIMIT_CFGS = [{"maxphys": 4}, {"maxphys": 7}, {"maxtail": 2}, {"maxtail": 4}, {"maxmacro": 3}, {"maxnest": 4}, {"maxnest": 6},
+LIMIT_CFGS = [{"maxphys": 2}, {"maxphys": 3}, {"maxphys": 4}, {"maxphys": 7}, {"maxphys": 8}, {"maxphys": 9}, {"maxtail": 2}, {"maxtail": 4}, {"maxmacro": 3}, {"maxnest": 4}, {"maxnest": 6},
               {"maxphys": 5, "maxnest": 5, "maxtail": 3, "maxmacro": 2}]
 
 
